@@ -140,9 +140,10 @@ def padTail (r : Nat) (Pb : Bits) : List Bits :=
   let (pre, Pb) := if Pb.size = r then ([Pb], (⟨0, 0⟩ : Bits)) else ([], Pb)
   pre ++ [(Pb.concat (Bits.ofNatSz 0 (r - Pb.size - 1))).concat (Bits.ofNat 1)]
 
-/-- `Keccak.iterblocks(M,bitlen)` as the list of its yields; r = 0 never terminates in Python (out of domain) -/
+/-- `Keccak.iterblocks(M,bitlen,r)` as the list of its yields.  r = 0 is out of domain: with data to read the inner
+    `while len(Pb)>=r` yields empty blocks for ever (`hang:rate 0`); with nothing to read `Bits(0,size=r-len(Pb)-1)`
+    raises (negative size).  Either comes after the `assert bitlen<=needed`. -/
 def iterblocks (r : Nat) (duplexing : Bool) (M : List Nat) (bitlen : Option Nat) : Except Err (List Bits) := do
-  if r = 0 then throw "hang:rate 0"
   let (M, needed) ← match bitlen with
     | none => pure (M, 8 * M.length)
     | some L =>
@@ -151,6 +152,7 @@ def iterblocks (r : Nat) (duplexing : Bool) (M : List Nat) (bitlen : Option Nat)
       else do
         let v ← realign M L
         pure (M.take (L / 8) ++ [v], L)
+  if r = 0 then throw (if M.isEmpty then "ValueError" else "hang:rate 0")
   let br := if r / 8 = 0 then 1 else r / 8
   let st := (chunks br M).foldl (loopStep r) { needed := needed }
   pure (st.out ++ padTail r st.Pb)
@@ -169,17 +171,47 @@ def squeezeLoop (c : Cfg) (r outlen : Nat) : Nat → Lanes → Bits → Except E
       squeezeLoop c r outlen fuel S (Z.concat z)
     else .ok Z
 
-/-- `Keccak.__call__(M,bitlen)` (r=None) -/
-def call (c : Cfg) (M : List Nat) (bitlen : Option Nat) : Except Err (List Nat) := do
-  if c.r = 0 then throw "AssertionError"
-  let blocks ← iterblocks c.r c.duplexing M bitlen
+/-- `Keccak.setrate(r)`: `assert r<=1536; self.r = r; self.c = self.b-self.r` (c = b−r is not stored in `Cfg`) -/
+def setrate (c : Cfg) (r : Nat) : Except Err Cfg :=
+  if r > 1536 then .error "AssertionError" else .ok { c with r := r }
+
+/-- the body of `Keccak.__call__` once its local `r` is settled: the SAME `r` is handed to `iterblocks(M,bitlen,r)`
+    (absorbing and pad10*1) and used by both `S.dump(r)` sites (squeezing); the object's own `self.r` is not read
+    any more, the capacity is whatever `b − r` leaves (`State.load` fills the 25 lanes, `dump` asserts r ≤ 25w). -/
+def callAt (c : Cfg) (r : Nat) (M : List Nat) (bitlen : Option Nat) : Except Err (List Nat) := do
+  let blocks ← iterblocks r c.duplexing M bitlen
   let S := absorb c (zero c.w) blocks
-  let Z ← dump c.w S c.r
+  let Z ← dump c.w S r
   match c.outlen with
   | none => throw "TypeError"
   | some d =>
-    let Z ← squeezeLoop c c.r d d S Z
+    let Z ← squeezeLoop c r d d S Z
     pure (sliceClip Z 0 d).pack
+
+/-- `Keccak.__call__(M,bitlen)` (r=None): `assert self.r; r = self.r` -/
+def call (c : Cfg) (M : List Nat) (bitlen : Option Nat) : Except Err (List Nat) := do
+  if c.r = 0 then throw "AssertionError"
+  callAt c c.r M bitlen
+
+/-- the local `r` of `__call__`: `r=None` → `assert self.r; r = self.r`; a given rate → `assert r<=1536` (a given
+    rate 0 passes this check and then never terminates in `iterblocks`: `hang:rate 0`) -/
+def callRate (c : Cfg) : Option Nat → Except Err Nat
+  | none => if c.r = 0 then .error "AssertionError" else .ok c.r
+  | some r => if r > 1536 then .error "AssertionError" else .ok r
+
+/-- `Keccak.__call__(M,bitlen,r)` with the optional per-call rate: the object afterwards and the result.  A rate
+    given to the call applies to this call's absorbing, padding and squeezing only — nothing is assigned to the
+    object, whether the call returns or raises. -/
+def callR (c : Cfg) (M : List Nat) (bitlen : Option Nat) (r : Option Nat := none) : Cfg × Except Err (List Nat) :=
+  (c, (callRate c r).bind fun r => callAt c r M bitlen)
+
+/-- the module-level objects `keccak_224 … keccak_512` (`Keccak(b=1600,c=…,len=n)`); the (n,b,r,c,outlen,duplexing)
+    rows are read from the live objects (Gen) -/
+def singleton (n : Nat) : Except Err Cfg :=
+  match Gen.KeccakG.singletons.find? (fun row => row.getD 0 0 == n) with
+  | none => .error "AttributeError"
+  | some row =>
+    (mk (row.getD 1 0) (row.getD 2 0) (some (row.getD 4 0))).map fun c => { c with duplexing := row.getD 5 0 != 0 }
 
 /-- the duplex object: configuration + the persistent `_S` (absent before the first call) -/
 structure Duplex where
